@@ -337,8 +337,11 @@ class VersionConverter(object):
                 # Move supported elements from Value to parent Property.
                 self._handle_value(value, prop_id)
 
-                if value.text and value.text.strip():
-                    value_texts.append(value.text.strip())
+                # The text of a value may follow its elements as well as precede them.
+                value_text = "".join([value.text or ""] +
+                                     [sub.tail or "" for sub in value]).strip()
+                if value_text:
+                    value_texts.append(value_text)
 
                 prop.remove(value)
 
